@@ -39,6 +39,15 @@ func FBP(reftree *tree.Tree, boottrees <-chan tree.Trees, cpus int, sup *Support
 		}
 	}
 	var wg sync.WaitGroup
+	var errmux sync.Mutex
+	// setErr keeps the first error reported by the workers
+	setErr := func(e error) {
+		errmux.Lock()
+		if err == nil {
+			err = e
+		}
+		errmux.Unlock()
+	}
 	for cpu := 0; cpu < cpus; cpu++ {
 		wg.Add(1)
 		go func(cpu int) {
@@ -50,15 +59,15 @@ func FBP(reftree *tree.Tree, boottrees <-chan tree.Trees, cpus int, sup *Support
 					break
 				}
 				if treeV.Err != nil {
-					err = treeV.Err
+					setErr(treeV.Err)
 					return
 				} else {
 					if inerr = treeV.Tree.ReinitIndexes(); inerr != nil {
-						err = inerr
+						setErr(inerr)
 						return
 					}
 					if inerr = reftree.CompareTipIndexes(treeV.Tree); inerr != nil {
-						err = inerr
+						setErr(inerr)
 						return
 					}
 					atomic.AddInt32(&ntrees, 1)
@@ -66,7 +75,7 @@ func FBP(reftree *tree.Tree, boottrees <-chan tree.Trees, cpus int, sup *Support
 					for i, e2 := range edges2 {
 						if !e2.Right().Tip() {
 							if inerr = edgeIndex.PutEdgeValue(e2, i, e2.Length()); inerr != nil {
-								err = inerr
+								setErr(inerr)
 								return
 							}
 						}
